@@ -39,7 +39,7 @@ def check(ctx):
     proved = ctx.prove("props/C11.v", ["proofs/EvalFacts.v", "proofs/PolyFacts.v"])
     ctx.build(["model/Corr.vo", "base/Farkas.vo"])
     rng = random.Random(ctx.seed + 11)
-    n = (150 if ctx.quick else 2500) * (1 if proved else 3)
+    n = (150 if ctx.quick else 20000) * (1 if proved else 3)
     exprs, cases, seen = [], [], set()
     hist = {"contained": 0, "not_contained": 0, "unassigned": 0, "empty": 0, "nonempty": 0, "refines_consistent": 0}
     for k in range(n):
